@@ -258,6 +258,26 @@ def directed_twins(rng, r):
     return hs
 
 
+# names one of which is a proper prefix of the other AND whose 32-bit murmur values are equal (found once by search; checked
+# again here with the check's own murmur3_32, so a table whose hash function changed simply does not use them)
+PREFIX_TWINS = [(b'k', b'k:11b6a753d'), (b'user', b'user:9c49cbbd'), (b'a1', b'a1:887e2e04'), (b'cfg.x', b'cfg.x:2874888a'),
+                (b'cfg.x', b'cfg.x:e32eafc6'), (b'cfg.x:2874888a', b'cfg.x:e32eafc6'), (b'Z', b'Z:8e3958c4')]
+
+
+def directed_prefix_twins(r):
+    """a name and an extension of it with the same hash: equality of names is equality of the whole strings, terminator included"""
+    hs = []
+    for short, long_ in PREFIX_TWINS:
+        if murmur3_32(short) != murmur3_32(long_):
+            continue
+        for a, b in ((short, long_), (long_, short)):
+            ops = ['put %s 0a' % hexs(a), 'get ' + hexs(b), 'getstr ' + hexs(b), 'remove ' + hexs(b), 'size', 'get ' + hexs(a),
+                   'put %s 0b0b' % hexs(b), 'size', 'get ' + hexs(a), 'get ' + hexs(b), 'walk 3',
+                   'put %s 0c' % hexs(a), 'get ' + hexs(b), 'remove ' + hexs(a), 'get ' + hexs(b), 'size', 'walk 3', 'remove ' + hexs(b), 'size']
+            hs.append((['new %d' % r, 'dump 1'], ops))
+    return hs
+
+
 def exhaustive(col, rng, r, K, D):
     """every sequence of D put/remove operations over K keys of one slot, then a complete walk"""
     ks = col.chain_keys(rng, r, K) if K > 0 else twins(rng, -K)
@@ -550,6 +570,7 @@ def run(ctx, replay=None):
     for r in ranges:
         hs += directed_removals(rng, col, r)
         hs += directed_twins(rng, r)
+        hs += directed_prefix_twins(r)
     nb += run_histories(ctx, exe, hs, 'directed')
     phase('directed')
     # random histories: a chain of >= 5 colliding keys + keys elsewhere + special keys
